@@ -421,7 +421,7 @@ func genCase(c *rig.Ctx, conc bool) Case {
 	if conc {
 		cs.Kind = "conc"
 		cs.G = 2 + r.Intn(31)
-		cs.M = 1 + r.Intn(nmax)
+		cs.M = 1 + r.Intn(min(nmax, 400))
 		switch r.Intn(4) {
 		case 0:
 			cs.Picks = []int{0, 1, 2}
